@@ -455,6 +455,37 @@ def run_module(case):
                           "parameters for original and reloaded module")
             return res
         res.see("post_reload_optimizer_steps")
+        if case["via"] == "pickle":
+            # second generation: the (changed) module is saved to the same file
+            # and loaded twice; each load reflects the file's present contents
+            # and the loaded objects are independent of each other
+            ok, _ = guarded(res, f"C19/save_pickle_fails/{mod_kind}",
+                            serialize.save_pickle, fn, m, dev)
+            if not ok:
+                return res
+            loads = []
+            for _ in range(2):
+                ok, m3 = guarded(res, f"C19/load_pickle_fails/{mod_kind}",
+                                 serialize.load_pickle, fn, graphdef, None)
+                if not ok:
+                    return res
+                loads.append(m3)
+            for m3 in loads:
+                if any(p.tobytes() != q.tobytes() for p, q in zip(s1, leaves_of(m3))):
+                    res.violation(f"C19/stale_reload/{mod_kind}",
+                                  "after saving the updated module to the same "
+                                  "file again, load_pickle does not return its "
+                                  "current parameters")
+                    return res
+            one_step(loads[0], sig, x, a)
+            if any(p.tobytes() != q.tobytes() for p, q in zip(s1, leaves_of(loads[1]))) \
+                    or any(p.tobytes() != q.tobytes()
+                           for p, q in zip(s2, leaves_of(m2))):
+                res.violation(f"C19/reloaded_objects_share_state/{mod_kind}",
+                              "updating one reloaded module changed another "
+                              "module loaded from the same file")
+                return res
+            res.see("second_generation_reloads")
     finally:
         shutil.rmtree(tmp, ignore_errors=True)
     res.nontrivial = True
